@@ -116,7 +116,7 @@ P('C17', ['replicated.newFunc', 'applyLogEntries', 'doApplyCommand', 'loadDumpFi
   'rebuilt for the restored version after a dump load (O17.6), as contracts on the real functions.',
   'Method-id enumeration and the name-table construction use reflection (dir/getattr, X4): they are checked by a bounded native '
   'stand-in (bounded/c17_reflection.py, labelled bounded in the evidence and not counted among the proof obligations), not proved.',
-  assumptions=['X4: reflection abstracted'], lemmas=['B-REFLECT'],
+  assumptions=['X4: reflection abstracted'], lemmas=['B-REFLECT', 'FRAME-VERSION-IN-DUMP'],
   bounded=['O17.1/O17.2/O17.7 (id enumeration in __init__, name table in __onSetCodeVersion, dispatch through the wrapper): exhaustive native '
            'enumeration over 160 generated old/new class pairs (<=2 object methods + 1 consumer method, versions in {0,1,2,3}), bounded, not proved'])
 
@@ -148,7 +148,7 @@ P('C09', ['loadDumpFile', 'sendAppendEntries', 'msg.append_entries', 'serializer
   'Serializer contracts: chunk sender/receiver (O9.5) with lemma L-CHUNK, serialize per mode with the file discipline "write tmp, then '
   'atomic rename, dump path never opened for writing" (O9.2), checkSerializing state machine (O9.3). T-PICKLE/T-GZIP/T-FORK/T-RENAME/'
   'T-FILE are trusted. The choice of the snapshot point in __tryLogCompaction (O9.1) is covered where unit tryLogCompaction is built.',
-  lemmas=['L-CHUNK'], modules=SO_MODS + ['contracts.ser_units'], assumptions=['A-DUMP', 'A-ATTRS'])
+  lemmas=['L-CHUNK', 'FRAME-VERSION-IN-DUMP'], modules=SO_MODS + ['contracts.ser_units'], assumptions=['A-DUMP', 'A-ATTRS'])
 
 # ---------------------------------------------------------------------------------------------------------- lemmas
 
@@ -205,6 +205,27 @@ def _bounded_reflection():
 
 
 LEMMAS['B-REFLECT'] = _bounded_reflection
+
+
+def _lemma_enabled_version_serialized():
+    """O9.4/O17.6 rest on the enabled code version being part of the dumped object state: SyncObj.__init__ must create
+    __enabledCodeVersion only after it has recorded its internal attribute names in __properies (what is recorded there is excluded
+    from dumps by __tryLogCompaction, unit tryLogCompaction).  Frame obligation on the AST of __init__."""
+    import ast
+    from pyvc import source
+    mod = source.load('pysyncobj/syncobj.py')
+    fn, ci = mod.find('SyncObj.__init__')
+    snap = [i for i, st in enumerate(fn.body) if isinstance(st, ast.For) and any(
+        isinstance(x, ast.Attribute) and x.attr == '__properies' for x in ast.walk(st))]
+    assigns = [i for i, st in enumerate(fn.body) for x in ast.walk(st) if isinstance(x, ast.Attribute) and x.attr == '__enabledCodeVersion' and isinstance(x.ctx, ast.Store)]
+    ok = len(snap) == 1 and len(assigns) >= 1 and all(i > snap[0] for i in assigns)
+    return [dict(id='C17+C09:O9.4.enabled-code-version-is-part-of-the-dumped-state', unit='lemma.frame', path='ast-order in SyncObj.__init__',
+                 status='discharged' if ok else 'failed', solver='ast-frame-analysis', secs=0.0,
+                 model={'properies_snapshot_stmt': snap, 'enabledCodeVersion_assign_stmts': assigns},
+                 info='snapshot stmt %s, assignments %s' % (snap, assigns), line=None)]
+
+
+LEMMAS['FRAME-VERSION-IN-DUMP'] = _lemma_enabled_version_serialized
 
 
 def _lemma_elect():
